@@ -217,7 +217,8 @@ class NetworkGraph(AbstractBaseIR):
                 if not scalar_edges:
                     continue
 
-                delays, spreads, nodes, add_delay = self._collect_delays_from_edges(scalar_edges)
+                # (with dde_approx the delays parametrize gamma chains of rate n/d: they stay in time units)
+                delays, spreads, nodes, add_delay = self._collect_delays_from_edges(scalar_edges, discretize=not dde_approx)
 
                 # add synaptic buffer to output variables with delay
                 if add_delay:
@@ -308,7 +309,8 @@ class NetworkGraph(AbstractBaseIR):
 
         return edges_new
 
-    def _collect_delays_from_edges(self, edges):
+    def _collect_delays_from_edges(self, edges, discretize: bool = True):
+        discretize_default = discretize
         means, stds, nodes = [], [], []
         for s, t, e in edges:
 
@@ -322,7 +324,7 @@ class NetworkGraph(AbstractBaseIR):
             n_slots = max(len(self.edges[s, t, e]['target_idx']), 1)
             if v is None or np.sum(v) == 0:
                 v = [0] * n_slots
-                discretize = True
+                discretize = discretize_default
             else:
                 discretize = False
                 v = self._process_delays(v, discretize=discretize)
